@@ -122,7 +122,7 @@ func c04ScenariosTier(tier string) []*Scenario {
 	}, func(m *Machine, rec *Recorder) []func() {
 		return []func(){
 			func() { rec.Set(1, "a", val(1, 0, "a", 0)) },
-			func() { m.St.VerifDump() },
+			func() { func() { m.St.VerifLimitDumper(m.St.VerifNewHead(0) + 1); m.St.VerifDump() }() },
 			func() { rec.Get(3, "a") },
 		}
 	}, true)
@@ -187,6 +187,9 @@ func runScenarios(job *Job, r *Report, scs []*Scenario, bounds []int, relBound i
 		}
 		// iterative bounding: each bound is a complete exploration of all schedules with at most that many preemptions
 		b := bounds[len(bounds)-1]
+		if sc.Heavy && b > 1 {
+			b--
+		}
 		sc.ExploreSchedules(r, job, b, false)
 		if relBound >= 0 {
 			sc.ExploreSchedules(r, job, relBound, true)
